@@ -48,6 +48,32 @@ func (vLivenessTester) PrintAndReset(*log.Logger)                            {}
 func (vLivenessTester) PrintStats(*log.Logger)                               {}
 func (vLivenessTester) Reset()                                               {}
 
+// vGeoIP stands in for the operator's GeoIP databases (none exist in this sandbox): country and AS number are a
+// function of the address; some addresses are unknown ("unk", as the station's empty database answers), some have an
+// empty country code.
+type vGeoIP struct{}
+
+func vGeoKey(ip net.IP) int {
+	k := 0
+	for _, b := range ip {
+		k = k*31 + int(b)
+	}
+	if k < 0 {
+		k = -k
+	}
+	return k
+}
+
+func (vGeoIP) CC(ip net.IP) (string, error) {
+	return []string{"US", "DE", "unk", "IR", "CN", "", "RU", "BR"}[vGeoKey(ip)%8], nil
+}
+func (vGeoIP) ASN(ip net.IP) (uint, error) {
+	if ip.To4() == nil {
+		return uint(65100 + vGeoKey(ip)%37), nil // networks seen over IPv6 only
+	}
+	return uint(64500 + vGeoKey(ip)%37), nil
+}
+
 var vRedisOnce sync.Once
 var vRedis *kit.FakeRedis
 
@@ -77,6 +103,7 @@ func vNewStation(t testing.TB, name string) *vStation {
 		t.Fatal("NewRegistrationManager returned nil")
 	}
 	s.rm.LivenessTester = vLivenessTester{}
+	s.rm.GeoIP = vGeoIP{}
 	rng := kit.Rand("station-key/" + name)
 	rng.Read(s.priv[:])
 	s.priv[0] &= 248
@@ -170,8 +197,15 @@ func (s *vStation) vBuild(sp vRegSpec) (*cj.DecoyRegistration, error) {
 		RegistrationSource:  &src,
 		RegistrationAddress: []byte(client),
 	}
-	if sp.Phantom != nil {
+	if sp.Phantom != nil && sp.Phantom.To4() != nil {
 		w.RegistrationResponse = &pb.RegistrationResponse{Ipv4Addr: proto.Uint32(binary.BigEndian.Uint32(sp.Phantom.To4())), DstPort: proto.Uint32(443)}
+	} else if sp.Phantom != nil {
+		// an IPv6 phantom: the registration built for the client's IPv6 support, from an IPv6 registrant
+		c2s.V4Support, c2s.V6Support = proto.Bool(false), proto.Bool(true)
+		if sp.Client == nil {
+			w.RegistrationAddress = []byte(net.ParseIP("2001:db8::77:88"))
+		}
+		w.RegistrationResponse = &pb.RegistrationResponse{Ipv6Addr: []byte(sp.Phantom.To16()), DstPort: proto.Uint32(443)}
 	}
 	b, err := proto.Marshal(w)
 	if err != nil {
